@@ -8,6 +8,7 @@ hubprops.PLAN["C07"] = [
     {"fam": "Failures", "num_q": 60, "num_t": 600, "depth": 80},
     {"fam": "leave-and-reuse", "scen": scenarios.leave_and_reuse, "num_q": 0, "num_t": 0, "prof_q": 2, "prof_t": 6},
     {"fam": "routing-edges", "scen": scenarios.routing_edges, "num_q": 0, "num_t": 0, "prof_q": 2, "prof_t": 4},
+    {"fam": "departure-with-logging", "scen": scenarios.departure_with_logging, "num_q": 0, "num_t": 0, "prof_q": 2, "prof_t": 4, "log_level": 20, "force_log": True},
     {"fam": "death-during-manager-msg", "scen": scenarios.death_during_manager_msg, "num_q": 0, "num_t": 0, "prof_q": 3, "prof_t": 8},
 ]
 
